@@ -4,6 +4,7 @@ from common import *
 from gen import *
 from oracle_util import *
 import numpy as np
+import json
 
 ID = 'C10'
 STRICT_ERR = False
@@ -113,7 +114,17 @@ def generate(rng, n, tier, stats):
             else:
                 a = arr(lens=[2] * nd, ndim=nd); ops = [['squeeze', 0]]
             cases.append({'ins': [a], 'ops': ops, 'tag': 'malformed'})
-    return cases
+    # a dimension name may hold a ';' (reshape uses a stand-in for ',' internally): the name is rewritten throughout the case
+    out = []
+    for c in cases:
+        ds_ = c['ins'][0]['dims'] if c.get('ins') and c['ins'][0]['dims'] else []
+        if ds_ and rng.random() < 0.08:
+            d_ = rng.choice(ds_); stats['semicolon_in_name']['yes'] += 1
+            keep = {k: v for k, v in c.items() if k.startswith('_')}
+            c = json.loads(json.dumps({k: v for k, v in c.items() if not k.startswith('_')}).replace('"%s"' % d_, '"%s;s"' % d_))
+            c.update(keep)
+        out.append(c)
+    return out
 
 # ---------------------------------------------------------------- oracle (from the property text)
 def _pos(dims, r):
